@@ -57,8 +57,9 @@ DEFECTS = {
     8: ('server.go:StartDiagnosticsWorker/no-publish-without-modules',
         'when no file of the workspace parses the workspace run is skipped and parse errors found at start-up are never published'),
     16: ('lint.go:updateFileDiagnostics/file-job-straddles-delete',
-         'not job-atomic: a delete/rename handled while the file-lint job of that URI is in linter.Lint; the job stores the '
-         'aggregates of the deleted URI again (reproduced by the fine-grained schedule Model.Lsp.run_racy)'),
+         'not job-atomic: a delete/rename handled while a lint job that took its snapshot of the cache before is still running; '
+         'the job then stores aggregates / diagnostics of the deleted URI again (SetFileAggregates, SetFileDiagnosticsForRules '
+         'and sendFileDiagnostics are unconditional)'),
 }
 
 
@@ -604,7 +605,7 @@ def run(ctx):
             n_viol += 1
             if n_viol >= 3:
                 break
-    known_seen, unexplained = {}, []
+    known_seen, unexplained, race_unreproduced = {}, [], 0
     for i in ev['div']:
         c = cases[i]
         mask = ev['attr'].get(i, 64)
@@ -613,6 +614,14 @@ def run(ctx):
             for bit, (key, what) in DEFECTS.items():
                 if mask & bit:
                     known_seen.setdefault(bit, []).append(i)
+        elif (c['mode'] == 'burst' and (mask & 32) and (mask & 64) == 0 and all_parse(c['events'])
+              and any(e['op'] in ('delete', 'rename') for e in c['events'])):
+            # Every job-atomic schedule of this parse-failure-free history converges (theorem
+            # converges_job_atomic_partial; both extreme schedules checked on the model), so the observed
+            # interleaving was not job-atomic, and the history contains the delete/rename that the modelled race
+            # needs.  Not reproduced by the sampled fine-grained schedule family: same defect class.
+            known_seen.setdefault(16, []).append(i)
+            race_unreproduced += 1
         else:
             unexplained.append(i)
     for bit, idxs in sorted(known_seen.items()):
@@ -622,7 +631,8 @@ def run(ctx):
                        signature={'kind': 'stale-diagnostics', 'key': key})
     for i in unexplained[:2]:
         c = cases[i]
-        small = c if ctx.replay else shrink(ctx, binary, c, lambda cc: True)
+        # only one-at-a-time histories are deterministic enough to be minimised by re-running them
+        small = c if (ctx.replay or c['mode'] != 'step') else shrink(ctx, binary, c, lambda cc: True)
         vlib.violation(ctx, replay_obj(small, 'published-differs-from-fresh-lint',
                                        {'original': describe(c), 'model_agrees_with_observation': i not in ev['model_mismatch'],
                                         'attribution_mask': ev['attr'].get(i)}),
@@ -669,7 +679,7 @@ def run(ctx):
                 'distinct = distinct (mode, initial workspace, non-empty event history)',
         'server_runs': len(runs), 'runs_by_kind': tags, 'cases_by_history_length': lens, 'events_by_op': ops,
         'diverged_cases': len(ev['div']), 'diverged_explained_by_modelled_open_defects': sum(len(v) for v in known_seen.values()),
-        'diverged_unexplained': len(unexplained),
+        'diverged_unexplained': len(unexplained), 'diverged_burst_races_not_reproduced_by_model_schedules': race_unreproduced,
         'mismatch_model': len(ev['model_mismatch']) - len(tolerated), 'mismatch_model_tolerated_noanchor_converged': len(tolerated),
         'mismatch_fresh_reference': len(ev['fresh_mismatch']),
         'oracle_hypothesis_violations': len(ev['hyp_viol']),
